@@ -42,11 +42,112 @@ def boundary_cases():
     return out
 
 
+def _zz(n):
+    n = (n << 1) ^ (n >> 63)
+    out = bytearray()
+    while n & ~0x7F:
+        out.append((n & 0x7F) | 0x80)
+        n >>= 7
+    out.append(n)
+    return bytes(out)
+
+
+def overlapping_calls(run, good, tier, seed):
+    """the bytes of a datum do not depend on another schemaless_writer call being in progress:
+    (A) re-entrancy — a custom logical-type writer (the documented LOGICAL_WRITERS extension point) that serialises an
+    inner datum with schemaless_writer and embeds it as bytes; (B) threads, every one writing its own datum to its own
+    stream.  The expected bytes are the specification encodings obtained for the same data one call at a time."""
+    import copy
+    import io
+    import random
+    import sys
+    import threading
+    import fastavro
+    from fastavro import schemaless_writer
+    from fastavro.write import LOGICAL_WRITERS
+    r = random.Random(seed * 2003 + 2)
+    good = [g for g in good if 0 < len(g[2]) <= 4000]
+    if not good:
+        return
+    sample = [r.choice(good) for _ in range(scale(tier, 60))]
+    holder = {}
+
+    def envelope(data, schema, *a):
+        inner_schema, inner_value = holder["inner"]
+        fo = io.BytesIO()
+        schemaless_writer(fo, copy.deepcopy(inner_schema), inner_value)
+        return fo.getvalue()
+    key = "bytes-verif-envelope"
+    LOGICAL_WRITERS[key] = envelope
+    try:
+        outer = {"type": "record", "name": "VerifEnvelope", "fields": [
+            {"name": "seq", "type": "long"}, {"name": "topic", "type": "string"},
+            {"name": "body", "type": {"type": "bytes", "logicalType": "verif-envelope"}}, {"name": "tail", "type": "int"}]}
+        for (s, v, sb) in sample:
+            holder["inner"] = (s, v)
+            seq, topic, tail = r.randint(-2 ** 40, 2 ** 40), "t/" + "x" * r.randint(0, 20), r.randint(-99, 99)
+            exp = _zz(seq) + _zz(len(topic)) + topic.encode() + _zz(len(sb)) + sb + _zz(tail)
+            case = {"schema": outer, "inner_schema": s, "inner_value": to_wire(v), "tags": ["nested-call"]}
+            run.count(case, True, ["overlap:nested-call"])
+            fo = io.BytesIO()
+            try:
+                schemaless_writer(fo, copy.deepcopy(outer), {"seq": seq, "topic": topic, "body": object(), "tail": tail})
+                got = fo.getvalue()
+            except Exception as e:  # noqa
+                run.fail(case, "a writer call nested in another one (custom logical-type writer) raised %r" % (e,), kind="oracle")
+                continue
+            if got != exp:
+                case["impl_bytes"], case["spec_bytes"] = got.hex(), exp.hex()
+                run.fail(case, "bytes written differ from the specification's encoding when a second schemaless_writer call "
+                               "runs inside the first (custom logical-type writer embedding a serialised datum)", kind="oracle")
+    finally:
+        LOGICAL_WRITERS.pop(key, None)
+    # (B) threads
+    old = sys.getswitchinterval()
+    sys.setswitchinterval(1e-6)
+    try:
+        for g in range(scale(tier, 6)):
+            team = [r.choice(good) for _ in range(4)]
+            parsed = [fastavro.parse_schema(copy.deepcopy(s)) for s, _, _ in team]
+            bad = []
+            barrier = threading.Barrier(len(team))
+
+            def work(k):
+                s, v, sb = team[k]
+                barrier.wait()
+                for _ in range(40):
+                    fo = io.BytesIO()
+                    try:
+                        schemaless_writer(fo, parsed[k], v)
+                        got = fo.getvalue()
+                    except Exception as e:  # noqa
+                        bad.append((k, repr(e)))
+                        return
+                    if got != sb:
+                        bad.append((k, got.hex()))
+                        return
+            ts = [threading.Thread(target=work, args=(k,)) for k in range(len(team))]
+            for t in ts:
+                t.start()
+            for t in ts:
+                t.join()
+            case = {"schemas": [s for s, _, _ in team], "values": [to_wire(v) for _, v, _ in team], "tags": ["threads"]}
+            run.count(case, True, ["overlap:threads"])
+            if bad:
+                k, what = bad[0]
+                case["thread"], case["impl"], case["spec_bytes"] = k, what[:400], team[k][2].hex()[:400]
+                run.fail(case, "bytes written differ from the specification's encoding when several threads write their own "
+                               "data to their own streams at the same time", kind="oracle")
+    finally:
+        sys.setswitchinterval(old)
+
+
 def run(tier, seed):
     run = Run("C02", tier, seed)
     run.rule = ("gen.py schema+datum generator plus exhaustive per-primitive boundary tables (every |n| around 2^(7k-1), "
                 "lengths/counts/indices around 63/64, 8191/8192); non-trivial = depth >= 2 or boundary table; "
-                "distinct by structural hash")
+                "distinct by structural hash; overlapping calls: a writer call nested in a custom logical-type writer, four threads "
+                "writing their own data to their own streams")
     run.lean(TARGETS, THEOREMS)
     cases = boundary_cases() + gen_cases(seed + 101, scale(tier, 1000), bytes_defaults=False, logical=False)
     # the same type names with other definitions, interleaved (stale per-name caches)
@@ -59,6 +160,7 @@ def run(tier, seed):
     spec = run_batch(reqs)
     model = run_batch([dict(r, op="enc") for r in reqs])
     norm = run_batch([dict(r, op="normalize") for r in reqs])
+    good = []
     for k, (ci, di) in enumerate(idx):
         s, data, opts, parsed = cases[ci]
         v = data[di]
@@ -75,8 +177,11 @@ def run(tier, seed):
             elif sp.get("bytes") != ie["bytes"]:
                 case["impl_bytes"], case["spec_bytes"] = ie["bytes"], sp.get("bytes")
                 run.fail(case, "bytes written differ from the specification's encoding", kind="oracle")
+            elif not opts and depth_of(s) >= 2:
+                good.append((s, v, bytes.fromhex(sp["bytes"])))
         elif not same(ie, model[k]):
             case["impl"], case["model"] = ie, model[k]
             run.fail(case, "correspondence: enc differs between implementation and model (outside the guard)",
                      kind="correspondence")
+    overlapping_calls(run, good, tier, seed)
     return run.finish()
